@@ -298,8 +298,11 @@ fn overwrite_then_remove() {
     let look = Script::new()
         .then(Step::QueryRaw { tag: "raw".into(), addr: k1.to_string(), key: Binary::from(b"flag".to_vec()) })
         .then(Step::QuerySmartGet { tag: "smart".into(), addr: k1.to_string(), key: "flag".into() })
-        .then(Step::QuerySmartList { tag: "list_asc".into(), addr: k1.to_string(), descending: false })
-        .then(Step::QuerySmartList { tag: "list_desc".into(), addr: k1.to_string(), descending: true });
+        .then(Step::QuerySmartList { tag: "list_asc".into(), addr: k1.to_string(), descending: false, from: None })
+        .then(Step::QuerySmartList { tag: "list_desc".into(), addr: k1.to_string(), descending: true, from: None })
+        // iteration starting exactly AT the key the transaction touched (seed C10j), and just below it
+        .then(Step::QuerySmartList { tag: "list_from_flag".into(), addr: k1.to_string(), descending: false, from: Some("flag".into()) })
+        .then(Step::QuerySmartList { tag: "list_from_f".into(), addr: k1.to_string(), descending: false, from: Some("f".into()) });
     let outer = Script::new()
         .sub(WasmMsg::Execute { contract_addr: k1.to_string(), msg: first.bin(), funds: vec![] }, ReplyOn::Never, 1, None)
         .sub(WasmMsg::Execute { contract_addr: k1.to_string(), msg: second.bin(), funds: vec![] }, ReplyOn::Success, 2, Some(look));
@@ -332,7 +335,7 @@ fn overwrite_then_remove() {
     if variant == 3 {
         listed.push((b"other".to_vec(), b"x".to_vec()));
     }
-    for (tag, desc) in [("list_asc", false), ("list_desc", true)] {
+    for (tag, desc) in [("list_asc", false), ("list_desc", true), ("list_from_flag", false), ("list_from_f", false)] {
         let mut exp = listed.clone();
         if desc {
             exp.reverse();
